@@ -916,6 +916,9 @@ class X12ContextReader(object):
                 if cur_data_node.id != 'ISA' and cur_data_node is not None:
                     assert cur_data_node.parent is not None, 'Node "%s" has no parent' % (cur_data_node.id)
                 yield cur_data_node
+        if cur_tree is not None:
+            # end of input inside the requested loop: hand over the last tree
+            yield cur_tree
 
     def register_error_callback(self, callback, err_type):
         """
